@@ -347,6 +347,34 @@ def expand_predicates(lits, facts, body=None):
     from .defuse import subst
     out = []
     for l in lits:
+        if l.kind == "variant" and l.variants == {"Some"}:
+            # `opt.filter(|x| p(x))` is Some: p held for the payload
+            sf = _strip_var(l.term)
+            if sf[0] == "call" and callee_name(sf) == "filter" and len(sf[2]) >= 2 and sf[4] is not None and "Option" in ((sf[4].self_ty or "") + (sf[4].path or "")):
+                c_ = sf[2][1]
+                hops = 0
+                while hops < 20 and c_[0] in ("ref", "deref", "cast", "var"):
+                    hops += 1
+                    c_ = c_[3] if c_[0] == "var" else c_[1]
+                fcb = facts.body(c_[1]) if c_[0] == "closure" else None
+                if fcb is not None and fcb.path not in _EXPANDING and len(_EXPANDING) <= 3:
+                    mapping = {2: ("ref", ("field", ("downcast", sf[2][0], "Some"), "0", "std::option::Option::Some"))}
+                    for i_, cap in enumerate(c_[2] or []):
+                        mapping[("upvar", i_)] = cap
+                    _EXPANDING.append(fcb.path)
+                    try:
+                        inner = closure_result_lits(fcb, facts, True)
+                    finally:
+                        _EXPANDING.pop()
+                    for pl in inner:
+                        n = Lit(pl.kind, subst(pl.term, mapping), pl.truth, pl.variants, l.block, pl.raw, pl.value, pl.adt)
+                        n.edge = l.edge
+                        n.implied = True
+                        n.derived = True
+                        n.parent = l
+                        n.inner_derived = pl.derived
+                        out.append(n)
+                    continue
         if l.kind == "variant" and l.variants and l.variants <= OK_VARIANTS:
             # the success edge of a call to one of the crate's own fallible helpers: what every Ok / Some return of the helper
             # lies behind (`self.check_and_reassert(..)?` keeps the facts `check` established)
